@@ -20,10 +20,13 @@ def _taus(version, prime=True):
                 c.simulation.tau_shower.table_version = str(other)
                 t = Taus(c)
                 b, e = np.array([0.2, 0.0005, 1.0]), np.array([7.3, 9.1, 11.0])
-                t.tau_exit_prob(b.copy(), e.copy())
-                t.tau_energy(b.copy(), e.copy(), np.array([0.3, 0.6, 0.9]))
-                with rngmod.constant(0.5):
-                    t(b.copy(), e.copy())
+                try:
+                    t.tau_exit_prob(b.copy(), e.copy())
+                    t.tau_energy(b.copy(), e.copy(), np.array([0.3, 0.6, 0.9]))
+                    with rngmod.constant(0.5):
+                        t(b.copy(), e.copy())
+                except Exception:
+                    pass        # (the priming calls are not judged; the same inputs are, on the object under test)
     cfg = make_config({})
     cfg.simulation.tau_shower.table_version = str(version)
     return Taus(cfg), cfg
@@ -96,12 +99,38 @@ def c04_events(version, n, seed):
     pu = rng.uniform(1e-6, 1 - 1e-6, m)
     buf = Reuse()
     half = m // 2
-    Et = np.concatenate([taus.tau_energy(buf("b", pb[:half]), buf("e", pe[:half]), buf("u", pu[:half])),
-                         taus.tau_energy(buf("b", pb[half:2 * half]), buf("e", pe[half:2 * half]), buf("u", pu[half:2 * half])),
-                         taus.tau_energy(pb[2 * half:].copy(), pe[2 * half:].copy(), pu[2 * half:].copy())])
+    try:
+        Et = np.concatenate([taus.tau_energy(buf("b", pb[:half]), buf("e", pe[:half]), buf("u", pu[:half])),
+                             taus.tau_energy(buf("b", pb[half:2 * half]), buf("e", pe[half:2 * half]), buf("u", pu[half:2 * half])),
+                             taus.tau_energy(pb[2 * half:].copy(), pe[2 * half:].copy(), pu[2 * half:].copy())])
+    except Exception as ex:        # a legal batch (mix of in-range and out-of-range angles, explicit u) that raises
+        events.append({"kind": "reject", "e": bits(float(pe[0])), "raised": True,
+                       "_m": {"ver": version, "what": "tau_energy legal batch raised", "batch": "mixed angles, explicit u", "exc": repr(ex)[:200]}})
+        Et = np.full(m, np.nan)
     for i in range(m):
         events.append({"kind": "etau", "e": bits(pe[i]), "b": bits(pb[i]), "u": bits(pu[i]), "E": bits(Et[i]),
                        "_m": {"ver": version, "e": pe[i], "b": pb[i], "u": pu[i], "E": float(Et[i])}})
+    # the BOTTOM of the fraction range: u inside the first rising step of a row, so that the sampled fraction lies between the two smallest
+    # tabulated fractions of that row (table 3 tabulates fractions down to 1e-7 - below the binary32 epsilon used for the out-of-range filler)
+    lowE, lowB, lowU = [], [], []
+    firsts = []                                   # (index of the first positive CDF node, i, j) of every row of the table
+    for i in range(len(E)):
+        for j in range(len(B)):
+            pos = np.flatnonzero(data[i, j] > 0)
+            if len(pos) and pos[0] > 0:
+                firsts.append((int(pos[0]), i, j))
+    firsts.sort()
+    pick = firsts[: max(20, n // 20)] + [firsts[int(k)] for k in rng.choice(len(firsts), size=min(len(firsts), max(10, n // 40)), replace=False)]
+    for k0, i, j in pick:
+        first = float(data[i, j][k0])
+        for f in (0.03, 0.5, 0.97):
+            lowE.append(E[i]); lowB.append(B[j]); lowU.append(first * f)
+    if lowE:
+        lowE, lowB, lowU = np.array(lowE), np.array(lowB), np.array(lowU)
+        Elow = taus.tau_energy(lowB.copy(), lowE.copy(), lowU.copy())
+        for i in range(len(lowE)):
+            events.append({"kind": "etau", "e": bits(lowE[i]), "b": bits(lowB[i]), "u": bits(lowU[i]), "E": bits(Elow[i]),
+                           "_m": {"ver": version, "e": float(lowE[i]), "b": float(lowB[i]), "u": float(lowU[i]), "E": float(Elow[i]), "batch": "first rising step"}})
     # other shapes and spellings of a batch: 2-D arrays (C and Fortran order), whole-number energies as an integer array
     k2 = 12
     fb = rng.uniform(B[0], B[-1], k2)
@@ -158,9 +187,14 @@ def c04_events(version, n, seed):
         k = 40
         bb = rng.uniform(0.0, 1.0, k)
         ee = rng.uniform(6.0, 12.0, k)
-        with rngmod.constant(c):
-            zi = taus.tau_energy(bb.copy(), ee.copy())
-        zx = taus.tau_energy(bb.copy(), ee.copy(), np.full(k, c))
+        try:
+            with rngmod.constant(c):
+                zi = taus.tau_energy(bb.copy(), ee.copy())
+            zx = taus.tau_energy(bb.copy(), ee.copy(), np.full(k, c))
+        except Exception as ex:      # legal calls: a failure is an event, not a crash of the driver
+            events.append({"kind": "reject", "e": bits(float(ee[0])), "raised": True,
+                           "_m": {"ver": version, "what": "tau_energy legal batch raised", "batch": "explicit u = internal generator", "exc": repr(ex)[:200]}})
+            continue
         events.append({"kind": "explicit", "zint": [bits(x) for x in zi], "zexp": [bits(x) for x in zx],
                        "_m": {"ver": version, "c": c, "n": k, "equal": bool(np.array_equal(zi, zx))}})
     if version == 3:
